@@ -31,6 +31,7 @@ def main():
     if tier not in ("quick", "thorough"):
         print("tier must be quick or thorough")
         return 2
+    common.quiet_formulae()
     ob = common.obligations(prop)
     res = common.Result()
     if not ob["driver_ok"] and not common.driver_available():
